@@ -44,6 +44,7 @@ RULE = (
     "counted when the compared pixels hold at least two different disparities."
 )
 ASSUMPTIONS = [
+    "12-bit radiometry (up to 4095, and 3500..3560) is enumerated for zncc / sad / census pipelines without cbca; elsewhere "
     "integer-valued radiometry in [0, 15] ([0, 7] for ssd) so that sad/ssd/census costs, their float32 running sums "
     "in cbca and the interpolated half/quarter-pixel samples are exact; zncc costs are not integers: zncc followed "
     "by cbca is kept in the space and is expected to differ at rounding level (own key)",
@@ -121,6 +122,24 @@ def spaces(tier, seed):
                 i += 1
     out.append({"name": "matching cost + wta x every matching-cost configuration x interval x masks", "level": 0,
                 "cases": base})
+    # ---- 12-bit radiometry: integer samples up to 4095 (full range, and bright / weakly textured 3500..3560).
+    # sad, census and zncc without cbca (float32 running sums of such costs are not exact, which is a property of
+    # the input range, not a locality defect); the sums of samples and squares in the window statistics exceed 2^24
+    hi12 = []
+    for method in ("zncc", "sad", "census"):
+        for tail in (["wta"], ["wta", "vfit"], ["wta", "quad"], ["wta", "cross"], ["wta", "median", "vfit"],
+                     ["wta", "vfit", "cross"]):
+            for (hi, offset) in ((4095, 0), (60, 3500)):
+                for disp in (INTERVALS[:2] if quick else INTERVALS):
+                    for w, sp in (((3, 1), (5, 2)) if quick else ((1, 1), (3, 1), (3, 2), (5, 2), (5, 4))):
+                        if method == "census" and w == 1:
+                            continue
+                        c = _case(i, seed, method, tail, disp, 6 if quick else 16, fixed=(w, sp))
+                        c.update({"hi": hi, "offset": offset})
+                        hi12.append(c)
+                        i += 1
+    out.append({"name": "12-bit radiometry (full range and bright weakly textured), zncc / sad / census without cbca",
+                "level": 1, "cases": hi12})
     plans = [(2, CV_Q, DM_Q, 6)] if quick else [(2, CV_T, DM_T, 16), (3, CV_Q, DM_Q, 8)]
     done = set()
     for max_extra, cv, dm, ncrops in plans:
@@ -309,6 +328,10 @@ def _raises(case, arr, clause, error, kw, what):
 
 def run_case(case):
     arr = F.arrays(case["ny"], case["nx"], case["seed"], hi=case["hi"], mask=case["mask"])
+    if case.get("offset"):
+        # bright, weakly textured radiometry (e.g. 12-bit sensors): same integer samples shifted by a constant
+        arr["L"] = (arr["L"] + np.float32(case["offset"])).astype(np.float32)
+        arr["R"] = (arr["R"] + np.float32(case["offset"])).astype(np.float32)
     names, disp = case["pipe"], case["disp"]
     whole = _run(arr, case)
     if whole.error:
